@@ -616,7 +616,7 @@ def correspondence(ctx):
     thorough = ctx.tier == "thorough" or ctx.extra.get("drift")
     ctx.rule = ("net cases: 1-4 vms x 1-3 nics over random subnets (prefix lengths 8-30, sometimes 1-31), DHCP ranges "
                 "and host addresses; the real VMNetwork is built with a stub env/vm as in test_vm_network.py, then up "
-                "to 6 get_allocatable_address/reattach_interface (25% with proxy_nic) calls; after every step the "
+                "to 6 get_allocatable_address/reattach_interface (15% with proxy_nic) calls; after every step the "
                 "registry dump is compared with the Lean model and the registry invariant is checked on the real "
                 "objects (identity + ipaddress); arithmetic cases: all 33 prefix lengths x sampled hosts for "
                 "mask_bit, the mask_bit setter, _get_network_ip, translate_address and range allocation against "
